@@ -44,4 +44,8 @@ def main(argv=None) -> int:
 
 
 if __name__ == "__main__":
-    sys.exit(main())
+    _rc = main()
+    sys.stdout.flush()
+    sys.stderr.flush()
+    # helper threads of suspended generators (fdai) are daemons; leave without waiting for finalisers
+    os._exit(_rc)
